@@ -29,7 +29,7 @@ specs["C01"] = {"runs": [
     run("resolver:Harness_C01_resolve", QT, {"K": 3, "M": 1, "L": 1, "tight": 1, "prelude": 1}, "real", "all", cover=["acyclic-book", "nesting>=2"], note="every book under the default limit 10 and under the tightest limit that admits it (longest chain + 1), alone and after a failing resolution of a cyclic book with the same recipe names (sync.Pool modelled as a LIFO free list)"),
     run("resolver:Harness_C01_resolve", QT, {"K": 3, "M": 2, "L": 1}, "real", "all", cover=["acyclic-book", "nesting>=2"], note="9261 books of 3 recipes x <=2 ingredients over {3 recipes, 1 leaf}, 873 acyclic, x 3! visiting orders x 2 entry points"),
     run("resolver:Harness_C01_resolve", QT, {"K": 2, "M": 3, "L": 2}, "real", "all", cover=["acyclic-book"], note="repeated ingredients, two basic elements"),
-    run("resolver:Harness_C01_resolve", QT, {"K": 3, "M": 1, "L": 3, "oddleaves": 1, "lateapi": 1}, "real", "all", cover=["acyclic-book"], note="element names that share a prefix followed by '/' in one and by a lower byte in the others (sort order); third entry point: a Resolver created before the last recipe is pushed"),
+    run("resolver:Harness_C01_resolve", QT, {"K": 2, "M": 3, "L": 3, "oddleaves": 1, "lateapi": 1}, "real", "all", cover=["acyclic-book"], note="element names that share a prefix followed by '/' in one and by a lower byte in the others (sort order); third entry point: a Resolver created before the last recipe is pushed"),
     run("resolver:Harness_C01_idempotent", QT, {"K": 3, "M": 2, "L": 1}, "fp", "all", note="IEEE-754 encoding: re-resolving through the other entry point is bit-identical"),
     run("resolver:Harness_C01_resolve", T, {"K": 3, "M": 2, "L": 3}, "real", "all", cover=["acyclic-book", "nesting>=2"]),
     run("resolver:Harness_C01_resolve", T, {"K": 3, "M": 2, "L": 1, "tight": 1}, "real", "all", cover=["acyclic-book", "nesting>=2"]),
